@@ -23,25 +23,25 @@ theorem layersOf_eq_segOf (L : Nat) (F : Nat → List (Edge Key α)) : layersOf 
   rw [List.range_eq_range']
 
 /-- contribution of the edges `l` to the coefficient recursion from the key `κ` -/
-def stepSum (l : List (Edge Key α)) (κ : Key) (op : String) (f : Key → α) : α :=
+def compStepSum (l : List (Edge Key α)) (κ : Key) (op : String) (f : Key → α) : α :=
   (l.map (fun e => if e.kL = κ ∧ e.op = op then e.c * f e.kR else 0)).sum
 
-theorem stepSum_append (l1 l2 : List (Edge Key α)) (κ : Key) (op : String) (f : Key → α) :
-    stepSum (l1 ++ l2) κ op f = stepSum l1 κ op f + stepSum l2 κ op f := by
-  unfold stepSum
+theorem compStepSum_append (l1 l2 : List (Edge Key α)) (κ : Key) (op : String) (f : Key → α) :
+    compStepSum (l1 ++ l2) κ op f = compStepSum l1 κ op f + compStepSum l2 κ op f := by
+  unfold compStepSum
   rw [List.map_append, List.sum_append]
 
-theorem stepSum_zero (l : List (Edge Key α)) (κ : Key) (op : String) (f : Key → α)
-    (h : ∀ e ∈ l, e.kL ≠ κ) : stepSum l κ op f = 0 := by
-  unfold stepSum
+theorem compStepSum_zero (l : List (Edge Key α)) (κ : Key) (op : String) (f : Key → α)
+    (h : ∀ e ∈ l, e.kL ≠ κ) : compStepSum l κ op f = 0 := by
+  unfold compStepSum
   apply List.sum_eq_zero
   intro x hx
   obtain ⟨e, he, rfl⟩ := List.mem_map.1 hx
   rw [if_neg (fun hc => h e he hc.1)]
 
-theorem stepSum_congr (l : List (Edge Key α)) (κ : Key) (op : String) (f f' : Key → α)
-    (h : ∀ e ∈ l, e.kL = κ → f e.kR = f' e.kR) : stepSum l κ op f = stepSum l κ op f' := by
-  unfold stepSum
+theorem compStepSum_congr (l : List (Edge Key α)) (κ : Key) (op : String) (f f' : Key → α)
+    (h : ∀ e ∈ l, e.kL = κ → f e.kR = f' e.kR) : compStepSum l κ op f = compStepSum l κ op f' := by
+  unfold compStepSum
   apply sum_congr_map
   intro e he
   by_cases hc : e.kL = κ ∧ e.op = op
@@ -51,29 +51,29 @@ theorem stepSum_congr (l : List (Edge Key α)) (κ : Key) (op : String) (f f' : 
 theorem coeff_paths_stepSum (l : List (Edge Key α)) (rest : List (List (Edge Key α))) (κ : Key) (op : String)
     (t : OpStr) :
     coeff (pathsFrom Key.IdR (l :: rest) κ) (op :: t) =
-      stepSum l κ op (fun x => coeff (pathsFrom Key.IdR rest x) t) := by
+      compStepSum l κ op (fun x => coeff (pathsFrom Key.IdR rest x) t) := by
   rw [coeff_pathsFrom_cons]
   rfl
 
-theorem stepSum_loops_IdL (op : String) (f : Key → α) :
-    stepSum (idLoops : List (Edge Key α)) Key.IdL op f = if op = "Id" then f Key.IdL else 0 := by
-  unfold stepSum idLoops
+theorem compStepSum_loops_IdL (op : String) (f : Key → α) :
+    compStepSum (idLoops : List (Edge Key α)) Key.IdL op f = if op = "Id" then f Key.IdL else 0 := by
+  unfold compStepSum idLoops
   by_cases h : "Id" = op
   · subst h; simp [Key.IdL, Key.IdR]
   · have h' : ¬ op = "Id" := fun hh => h hh.symm
     simp [Key.IdL, Key.IdR, h, h']
 
-theorem stepSum_loops_IdR (op : String) (f : Key → α) :
-    stepSum (idLoops : List (Edge Key α)) Key.IdR op f = if op = "Id" then f Key.IdR else 0 := by
-  unfold stepSum idLoops
+theorem compStepSum_loops_IdR (op : String) (f : Key → α) :
+    compStepSum (idLoops : List (Edge Key α)) Key.IdR op f = if op = "Id" then f Key.IdR else 0 := by
+  unfold compStepSum idLoops
   by_cases h : "Id" = op
   · subst h; simp [Key.IdL, Key.IdR]
   · have h' : ¬ op = "Id" := fun hh => h hh.symm
     simp [Key.IdL, Key.IdR, h, h']
 
-theorem stepSum_loops_other (κ : Key) (h1 : κ ≠ Key.IdL) (h2 : κ ≠ Key.IdR) (op : String) (f : Key → α) :
-    stepSum (idLoops : List (Edge Key α)) κ op f = 0 := by
-  apply stepSum_zero
+theorem compStepSum_loops_other (κ : Key) (h1 : κ ≠ Key.IdL) (h2 : κ ≠ Key.IdR) (op : String) (f : Key → α) :
+    compStepSum (idLoops : List (Edge Key α)) κ op f = 0 := by
+  apply compStepSum_zero
   intro e he
   simp only [idLoops, List.mem_cons, List.not_mem_nil, or_false] at he
   rcases he with rfl | rfl
@@ -146,10 +146,10 @@ theorem components_suffix (L : Nat) (A B : Nat → List (Edge Key α)) (inA inB 
       cases t with
       | nil => simp only [segOf_succ, coeff_pathsFrom_cons_nil, and_self]
       | cons op t =>
-        simp only [segOf_succ, coeff_paths_stepSum, stepSum_append]
-        rw [stepSum_zero (A k) _ _ _ hAL, stepSum_zero (B k) _ _ _ hBL,
-          stepSum_zero (A k) _ _ _ hAL, stepSum_zero (B k) _ _ _ hBL]
-        simp only [stepSum_loops_IdR, zero_add]
+        simp only [segOf_succ, coeff_paths_stepSum, compStepSum_append]
+        rw [compStepSum_zero (A k) _ _ _ hAL, compStepSum_zero (B k) _ _ _ hBL,
+          compStepSum_zero (A k) _ _ _ hAL, compStepSum_zero (B k) _ _ _ hBL]
+        simp only [compStepSum_loops_IdR, zero_add]
         constructor
         · split
           · exact (ihR t).1
@@ -161,37 +161,37 @@ theorem components_suffix (L : Nat) (A B : Nat → List (Edge Key α)) (inA inB 
       cases t with
       | nil => simp only [segOf_succ, coeff_pathsFrom_cons_nil]
       | cons op t =>
-        simp only [segOf_succ, coeff_paths_stepSum, stepSum_append]
+        simp only [segOf_succ, coeff_paths_stepSum, compStepSum_append]
         have hB0 : ∀ e ∈ B k, e.kL ≠ κ := by
           intro e he hc
           rcases (hB k hkL e he).1 with h | h
           · rw [h] at hc; exact (hAk κ hκ).1 hc.symm
           · rw [hc] at h; exact hdis κ hκ h
-        rw [stepSum_zero (B k) _ _ _ hB0, stepSum_loops_other κ (hAk κ hκ).1 (hAk κ hκ).2,
-          stepSum_loops_other κ (hAk κ hκ).1 (hAk κ hκ).2, add_zero, add_zero, add_zero]
-        exact stepSum_congr _ _ _ _ _ (fun e he _ => hAcongr t e he)
+        rw [compStepSum_zero (B k) _ _ _ hB0, compStepSum_loops_other κ (hAk κ hκ).1 (hAk κ hκ).2,
+          compStepSum_loops_other κ (hAk κ hκ).1 (hAk κ hκ).2, add_zero, add_zero, add_zero]
+        exact compStepSum_congr _ _ _ _ _ (fun e he _ => hAcongr t e he)
     · intro κ hκ t
       cases t with
       | nil => simp only [segOf_succ, coeff_pathsFrom_cons_nil]
       | cons op t =>
-        simp only [segOf_succ, coeff_paths_stepSum, stepSum_append]
+        simp only [segOf_succ, coeff_paths_stepSum, compStepSum_append]
         have hA0 : ∀ e ∈ A k, e.kL ≠ κ := by
           intro e he hc
           rcases (hA k hkL e he).1 with h | h
           · rw [h] at hc; exact (hBk κ hκ).1 hc.symm
           · rw [hc] at h; exact hdis κ h hκ
-        rw [stepSum_zero (A k) _ _ _ hA0, stepSum_loops_other κ (hBk κ hκ).1 (hBk κ hκ).2,
-          stepSum_loops_other κ (hBk κ hκ).1 (hBk κ hκ).2, zero_add, add_zero, add_zero]
-        exact stepSum_congr _ _ _ _ _ (fun e he _ => hBcongr t e he)
+        rw [compStepSum_zero (A k) _ _ _ hA0, compStepSum_loops_other κ (hBk κ hκ).1 (hBk κ hκ).2,
+          compStepSum_loops_other κ (hBk κ hκ).1 (hBk κ hκ).2, zero_add, add_zero, add_zero]
+        exact compStepSum_congr _ _ _ _ _ (fun e he _ => hBcongr t e he)
     · intro t
       cases t with
       | nil => simp only [segOf_succ, coeff_pathsFrom_cons_nil, add_zero]
       | cons op t =>
-        simp only [segOf_succ, coeff_paths_stepSum, stepSum_append, stepSum_loops_IdL]
-        rw [stepSum_congr (A k) Key.IdL op _
+        simp only [segOf_succ, coeff_paths_stepSum, compStepSum_append, compStepSum_loops_IdL]
+        rw [compStepSum_congr (A k) Key.IdL op _
             (fun x => coeff (pathsFrom Key.IdR (segOf (fun k => A k ++ idLoops) (k + 1) n) x) t)
             (fun e he _ => hAcongr t e he),
-          stepSum_congr (B k) Key.IdL op _
+          compStepSum_congr (B k) Key.IdL op _
             (fun x => coeff (pathsFrom Key.IdR (segOf (fun k => B k ++ idLoops) (k + 1) n) x) t)
             (fun e he _ => hBcongr t e he)]
         split
